@@ -34,12 +34,14 @@ struct item {
 struct lctx {
   uv_loop_t loop;
   pthread_t pt;
-  int idx, quota, submitted, reported;
+  int idx, quota, submitted, reported, force_kind;
   unsigned long long rng;
   struct item* items;
 };
 
 static struct lctx L[MAXL];
+static pthread_barrier_t start_barrier;
+static unsigned expect_threads;
 static int nloops;
 static atomic_int slow_now, slow_max, bad, total_cancel0, total_busy, total_done;
 static unsigned cap;
@@ -127,8 +129,11 @@ static void try_cancel(struct lctx* c, struct item* it) {
 static void submit_one(struct lctx* c) {
   struct item* it = &c->items[c->submitted];
   unsigned before = c->loop.active_reqs.count;
+  /* request storage is whatever the application had there (stack / malloc / a reused request): never zeroed */
+  memset(&it->u, 0xAB, sizeof(it->u));
   int r = 0;
   it->id = c->submitted; it->loop = c->idx; it->kind = rnd(c) % 10 < 6 ? rnd(c) % 2 : 2 + rnd(c) % 4;
+  if (c->force_kind >= 0) it->kind = c->force_kind;
   switch (it->kind) {
   case K_CPU: r = uv_queue_work(&c->loop, &it->u.work, work_cb, after_cb); break;
   case K_SLOW:
@@ -161,9 +166,17 @@ static void submit_one(struct lctx* c) {
 static void* loop_thread(void* arg) {
   struct lctx* c = arg;
   int i, first = c->quota < 12 ? c->quota : 12;
+  pthread_barrier_wait(&start_barrier);
   for (i = 0; i < first; i++) submit_one(c);
   for (i = 0; i < first; i++)
     if (rnd(c) % 3 == 0) try_cancel(c, &c->items[rnd(c) % first]);
+  /* every kind of request once more while the pool is saturated, cancelled right away (most are still queued) */
+  for (i = 0; i < NKINDS && c->submitted < c->quota; i++) {
+    c->force_kind = i;
+    submit_one(c);
+    c->force_kind = -1;
+    try_cancel(c, &c->items[c->submitted - 1]);
+  }
   while (uv_loop_alive(&c->loop)) {
     uv_run(&c->loop, UV_RUN_ONCE);
     if (c->reported < c->submitted && !uv_loop_alive(&c->loop))
@@ -285,15 +298,25 @@ int main(int argc, char** argv) {
   if (nloops < 1 || nloops > MAXL || per < 1 || per > MAXI) return 2;
   alarm(120);                                   /* a deadlock shows up as SIGALRM */
   for (i = 0; i < nloops; i++) {
-    L[i].idx = i; L[i].quota = per; L[i].rng = seed * 1000003ULL + i * 7919 + 1;
+    L[i].idx = i; L[i].quota = per; L[i].force_kind = -1; L[i].rng = seed * 1000003ULL + i * 7919 + 1;
     L[i].items = calloc(per, sizeof(struct item));
     if (uv_loop_init(&L[i].loop)) return 3;
   }
-  uv_once(&once, init_once);
-  cap = (nthreads + 1) / 2;
+  /* the pool is NOT initialised here: the loop threads make the process's first submissions concurrently
+   * (released together by a barrier), so the one-time initialisation is contended */
+  {
+    const char* v = getenv("UV_THREADPOOL_SIZE");
+    unsigned n = v ? (unsigned) atoi(v) : 4;
+    if (n == 0) n = 1;
+    if (n > MAX_THREADPOOL_SIZE) n = MAX_THREADPOOL_SIZE;
+    cap = (n + 1) / 2;
+    expect_threads = n;
+  }
+  pthread_barrier_init(&start_barrier, NULL, nloops);
   for (i = 0; i < nloops; i++)
     if (pthread_create(&L[i].pt, NULL, loop_thread, &L[i])) return 3;
   for (i = 0; i < nloops; i++) pthread_join(L[i].pt, NULL);
+  if (nthreads != expect_threads) FAIL("pool-size %u threads, UV_THREADPOOL_SIZE asks for %u", nthreads, expect_threads);
   for (i = 0; i < nloops; i++) {
     if (uv_loop_close(&L[i].loop)) FAIL("uv_loop_close busy on loop %d", i);
     free(L[i].items);
